@@ -226,12 +226,86 @@ fn program_x(name: &'static str, parked: Vec<Cons>, racing: Vec<Cons>, with_outs
     })
 }
 
+/// Ordinary use of the listing next to waiting consumers: a page of ListTopicSubscriptions is fetched, subscriptions of
+/// that page are deleted, the next page is requested with the (now stale, or shifted, or far too large) token - and then
+/// the subscription the consumers wait on is deleted.  They must be released whatever the listing made of its token.
+fn listing_then_delete_scenario() -> ScenFn {
+    scen!([] |cx| {
+        let a = cx.api.clone();
+        must!(cx, "setup:create-topic", { let a = a.clone(); async move { a.create_topic(T0).await } });
+        for s in [S0, S1, S2] {
+            must!(cx, "setup:create-sub", { let a = a.clone(); async move { a.create_sub(s, T0, 10, None).await } });
+        }
+        // consumers on S2: a stream and a blocked pull
+        let done_stream: Arc<Mutex<Option<String>>> = Default::default();
+        let done_pull: Arc<Mutex<Option<String>>> = Default::default();
+        let (ds, a2) = (done_stream.clone(), a.clone());
+        let hs = cx.spawn("client:00-stream", async move {
+            let (tx, r) = a2.streaming_pull(first_stream_req(S2, 10)).await;
+            let _keep = tx;
+            let end = match r {
+                Err(c) => format!("{:?}", c),
+                Ok(mut st) => loop {
+                    match st.message().await {
+                        Ok(Some(_)) => {}
+                        Ok(None) => break "EOF".to_string(),
+                        Err(e) => break format!("{:?}", e.code()),
+                    }
+                },
+            };
+            *ds.lock().unwrap() = Some(end);
+        });
+        let (dp, a3) = (done_pull.clone(), a.clone());
+        let hp = cx.spawn("client:01-pull", async move {
+            let r = a3.pull(S2, 1, false).await;
+            *dp.lock().unwrap() = Some(match r { Ok(v) => format!("OK({})", v.len()), Err(c) => format!("{:?}", c) });
+        });
+        tryv!(cx.quiesce().await);
+        // the listing
+        let size = [1, 2][cx.choose("page-size", 2)];
+        let first = must!(cx, "client:list-1", { let a = a.clone(); async move { a.list_topic_subs(T0, size, "").await } });
+        let how = cx.choose("next-token", 4); // 0: as issued after deleting that page's subscriptions, 1: as issued, 2: shifted far, 3: huge
+        if how == 0 {
+            for s in first.0.clone() {
+                let s: &'static str = [S0, S1, S2].into_iter().find(|x| *x == s).unwrap_or(S0);
+                if s != S2 {
+                    must!(cx, "client:delete-listed", { let a = a.clone(); async move { a.delete_sub(s).await } });
+                }
+            }
+        }
+        let token = match how {
+            0 | 1 => first.1.clone(),
+            2 => { let a = a.clone(); tryv!(cx.settle("client:list-far", async move { a.list_topic_subs(T0, 1000, "").await }).await).map(|x| x.1).unwrap_or_default() }
+            _ => "//////////8=".to_string(),
+        };
+        let token = if how == 2 && token.is_empty() { first.1.clone() } else { token };
+        let second = { let a = a.clone(); tryv!(cx.settle("client:list-2", async move { a.list_topic_subs(T0, size, &token).await }).await) };
+        // now the deletion the consumers are waiting for
+        let d = { let a = a.clone(); tryv!(cx.settle("client:delete-sub", async move { a.delete_sub(S2).await }).await) };
+        tryv!(cx.advance_ms(1_000).await);
+        let key = format!("size={} how={} page2={} delete={}", size, how, match &second { Ok(v) => format!("OK({})", v.0.len()), Err(c) => format!("{:?}", c) }, res(&d));
+        if d.is_err() {
+            return ScenarioOut::viol("listing-then-delete/delete-failed", format!("{}: DeleteSubscription of a subscription nobody else touched failed", key));
+        }
+        let (es, ep) = (done_stream.lock().unwrap().clone(), done_pull.lock().unwrap().clone());
+        if !hs.is_finished() || es.as_deref() != Some("NotFound") {
+            return ScenarioOut::viol("listing-then-delete/stream-not-released", format!("{}: one second after DeleteSubscription returned the StreamingPull is {:?}", key, es));
+        }
+        match ep.as_deref() {
+            Some(e) if hp.is_finished() && !e.starts_with("OK") => {}
+            other => return ScenarioOut::viol("listing-then-delete/pull-not-released", format!("{}: one second after DeleteSubscription returned the blocked Pull is {:?}", key, other)),
+        }
+        ScenarioOut::ok(key)
+    })
+}
+
 pub fn units(thorough: bool) -> Vec<Unit> {
     use Cons::*;
     let d = if thorough { 9 } else { 4 };
     let d2 = if thorough { 6 } else { 3 };
     let cfg = ExecCfg::default();
     let mut v = vec![];
+    v.push(explore_unit("seq/listing-then-delete", "ListTopicSubscriptions page by page with subscriptions deleted in between (stale / shifted / huge tokens), then the subscription on which a StreamingPull and a Pull wait is deleted: both are released", Bounds::new(0), ExecCfg::default(), listing_then_delete_scenario()));
     let progs: Vec<(&'static str, Vec<Cons>, Vec<Cons>, bool, usize)> = vec![
         ("stream-open", vec![StreamOpen], vec![], false, d),
         ("stream-closed", vec![StreamClosed], vec![], false, d),
